@@ -14,7 +14,8 @@ theorem untouched_docs_nottl (now : Int) (c c' : Coll) (hn : c.ttlIndexes = [])
   · exact h
   · rw [he] at h1; cases h1; exact h
 
-def famWitnessColl : Coll := { docs := [(.int 1, .doc [("_id", .int 1), ("a", .int 1)])] }
+def famWitnessColl : Coll :=
+  { docs := [(.int 1, .doc [("_id", .int 1), ("a", .int 1)])], forceCreated := true }
 
 /-- `find_one_and_update(upsert=True, return_document=AFTER)` with a projection that mixes
     inclusion and exclusion: the upsert is done, THEN the read-back raises ValueError -/
@@ -27,10 +28,10 @@ theorem fam_witness :
     (stepX {} 0 famWitnessColl famWitnessOp).1.docs.length = 2 := by decide +kernel
 
 theorem fam_failed_noop_full_fails :
-    ¬ (∀ (cfg : Cfg) (now : Int) (c : Coll) (op : Val), famOp op = true →
+    ¬ (∀ (cfg : Cfg) (now : Int) (c : Coll) (op : Val), c.Recorded → famOp op = true →
       (stepX cfg now c op).2.isErr = true → Untouched now c (stepX cfg now c op).1) := by
   intro h
-  have hu := h {} 0 famWitnessColl famWitnessOp fam_witness.1 fam_witness.2.1
+  have hu := h {} 0 famWitnessColl famWitnessOp (fun _ => rfl) fam_witness.1 fam_witness.2.1
   have hd := untouched_docs_nottl 0 famWitnessColl _ rfl hu
   have hl := fam_witness.2.2
   rw [hd] at hl
@@ -40,7 +41,7 @@ theorem fam_failed_noop_full_fails :
 
 def manyWitnessColl : Coll :=
   { docs := [(.int 1, .doc [("_id", .int 1), ("a", .int 1)]),
-             (.int 2, .doc [("_id", .int 2), ("a", .str "x")])] }
+             (.int 2, .doc [("_id", .int 2), ("a", .str "x")])], forceCreated := true }
 
 def manyWitnessReq : Val :=
   .arr [.str "UpdateMany", .doc [], .doc [("$inc", .doc [("a", .int 1)])], .bool false]
@@ -58,10 +59,12 @@ theorem many_witness :
 
 theorem bulk_failed_request_noop_full_fails :
     ¬ (∀ (cfg : Cfg) (now : Int) (c c' : Coll) (idx : Nat) (req : Val) (o : BulkOut),
-      bulkOne cfg now c idx req = (c', o) → requestFailed o = true → Untouched now c c') := by
+      c.Recorded → bulkOne cfg now c idx req = (c', o) → requestFailed o = true →
+      Untouched now c c') := by
   intro h
   have hu := h {} 0 manyWitnessColl (bulkOne {} 0 manyWitnessColl 0 manyWitnessReq).1 0
-    manyWitnessReq (bulkOne {} 0 manyWitnessColl 0 manyWitnessReq).2 rfl many_witness.1
+    manyWitnessReq (bulkOne {} 0 manyWitnessColl 0 manyWitnessReq).2 (fun _ => rfl) rfl
+    many_witness.1
   have hd := untouched_docs_nottl 0 manyWitnessColl _ rfl hu
   have h1 := many_witness.2.1
   rw [hd, many_witness.2.2] at h1
@@ -81,7 +84,11 @@ def granColl : Coll :=
   { docs := [(.int 1, .doc [("_id", .int 1), ("a", .int 1)]),
              (.int 2, .doc [("_id", .int 2), ("a", .int 2)]),
              (.int 3, .doc [("_id", .int 3), ("a", .str "x")]),
-             (.int 4, .doc [("_id", .int 4), ("a", .int 4)])] }
+             (.int 4, .doc [("_id", .int 4), ("a", .int 4)])], forceCreated := true }
+
+theorem witness_colls_recorded :
+    famWitnessColl.Recorded ∧ manyWitnessColl.Recorded ∧ granColl.Recorded :=
+  ⟨fun _ => rfl, fun _ => rfl, fun _ => rfl⟩
 
 theorem granColl_hyps : granColl.ttlIndexes = [] ∧ KeysDistinct granColl ∧ GoodKeys granColl := by
   refine ⟨rfl, ?_, goodKeys_of_scalar _ (by decide)⟩
